@@ -184,7 +184,7 @@ func checkC07(r *fw.Run) {
 		return
 	}
 	rng := r.Rng("progs")
-	n := r.Pick(1500, 50000)
+	n := r.Pick(1500, 15000)
 	feat := map[string]int{}
 	var progs []*Prog
 	for i := 0; i < n; i++ {
